@@ -28,7 +28,7 @@ import (
 
 func init() { props["C05"] = runC05 }
 
-var c05Trajs = [][]int{{0, -3, 1}, {1, 1, 2}, {2, 7, 7}, {7, 1 << 30, 3}, {1 << 30, 0, 5}, {3, 3, 3}}
+var c05Trajs = [][]int{{0, -3, 1}, {1, 1, 2}, {2, 7, 7}, {7, 1 << 30, 3}, {1 << 30, 0, 5}, {3, 3, 3}, {5, math.MaxInt32, 2}}
 
 func c05Check(kind string, strat core.Strategy, reg *RecRegistry, est int, when string) (sig, msg string) {
 	want := max1(est)
@@ -245,7 +245,54 @@ func c05Concurrent(kind string, traj []int, holders int) *mc.Scenario {
 	}
 }
 
+// c05Constructors: right after construction, through every public constructor of the default
+// limiter, the strategy (built with a different limit) enforces the algorithm's estimate.
+func c05Constructors(c *Ctx) {
+	name := "C05/constructors"
+	params := "NewDefaultLimiter / NewDefaultLimiterWithDefaults x strategy kind (strategy built with limit 9)"
+	if c.replay != nil || (c.only != "" && !strings.Contains(name, c.only)) {
+		if c.replay == nil || c.replay.Scenario != name {
+			return
+		}
+	}
+	if c.replay == nil && (!c.Mine() || c.expired()) {
+		return
+	}
+	st := &mc.BFSStats{Model: name, Params: params, SigCounts: map[string]int{}, Exhaustive: true, Fixpoint: true, Depth: 1, MaxDepth: 1}
+	for _, kind := range []string{"simple", "precise", "lookup", "predicate"} {
+		for _, ctor := range []string{"NewDefaultLimiter", "NewDefaultLimiterWithDefaults"} {
+			reg := NewRecRegistry()
+			strat := newStrategy(kind, 9, reg)
+			var l *limiter.DefaultLimiter
+			var err error
+			if ctor == "NewDefaultLimiter" {
+				l, err = limiter.NewDefaultLimiter(limit.NewFixedLimit("f", 4, nil), 1e6, 1e6, 1, 10, strat, limit.NoopLimitLogger{}, reg)
+			} else {
+				l, err = limiter.NewDefaultLimiterWithDefaults("d", strat, limit.NoopLimitLogger{}, reg)
+			}
+			if err != nil {
+				panic(err)
+			}
+			st.Transitions++
+			st.Nontrivial++
+			st.States++
+			if sig, msg := c05Check(kind, strat, reg, l.EstimatedLimit(), "right after "+ctor); sig != "" {
+				st.SigCounts[sig]++
+				st.Violations = append(st.Violations, &mc.Violation{Scenario: name, Params: params, Failures: []mc.Failure{{Sig: sig, Msg: msg}}})
+			}
+		}
+	}
+	if c.replay != nil {
+		for _, v := range st.Violations {
+			fmt.Printf("  FAIL [%s] %s\n", v.Failures[0].Sig, v.Failures[0].Msg)
+		}
+		return
+	}
+	c.AddBFS(st)
+}
+
 func runC05(c *Ctx) {
+	c05Constructors(c)
 	db := c.Pick(2, 3)
 	for _, kind := range []string{"simple", "precise", "lookup", "predicate"} {
 		for _, tr := range c05Trajs {
